@@ -11,6 +11,13 @@ open Rpylib Rpylib.Path
   jt <direct|ctmc> <dates> <offsets> <sizes> <w>        -> `<times> <diffusion> <jumps>`  (offsets: sorted uniforms per interval)
   maxstep <code|spec> <eps> <T> <jump_times> <values> <w>  -> `<times> <diffusion> <jumps>`
   maxpair <eps> <T> <jump_times> <fine> <coarse>        -> `<times> <fine> <coarse>`
+ coupled copula simulator, d coordinates (a row of <incsF>/<incsC> = one product interval, its d-vectors flattened;
+ a row of <wF>/<wC> = the d scaled Brownian increments of one step; answers: one row per time, d entries):
+  cfixed <d> <dates> <incsF> <incsC> <wF> <wC>            -> `<times> <diffF> <diffC> <fine> <coarse>`
+  cjt <d> <dates> <offsets> <incsF> <incsC> <wF> <wC>     -> the same
+  cmax <d> <eps> <dates> <offsets> <incsF> <incsC> <wF> <wC>  -> the same
+  iff fixed <incs>                 -> `1` iff every interval but the last has zero jump sum (fixedDates_code_eq_spec_iff)
+  iff restart <sizes>              -> `1` iff RestartFree 0 sizes (jumpValsCtmc_eq_direct_iff)
 -/
 def showPath (p : PathOut) : String :=
   showRatList p.times ++ " " ++ showRatList p.diff ++ " " ++ showRatList p.jumps
@@ -21,8 +28,55 @@ def mkIntervals : List Rat → List (List Rat) → List (List Rat) → List Inte
 
 def padRows (n : Nat) (rows : List (List Rat)) : List (List Rat) := (List.range n).map (fun i => rows.getD i [])
 
+/-- a flattened row of `n·d` numbers as `n` d-vectors -/
+def chunkV (d : Nat) : Nat → List Rat → List V
+  | 0, _ => []
+  | fuel + 1, l => if l.isEmpty || d = 0 then [] else (fun c => (l.take d).getD c 0) :: chunkV d fuel (l.drop d)
+
+def rowsV (d : Nat) (rows : List (List Rat)) : List (List V) := rows.map (fun r => chunkV d r.length r)
+def colsV (rows : List (List Rat)) : List V := rows.map (fun r => fun c => r.getD c 0)
+def showV (d : Nat) (l : List V) : String := showListList showRat (l.map (fun v => (List.range d).map v))
+
+def showPairV (d : Nat) (p : PairOutV) : String :=
+  showRatList p.times ++ " " ++ showV d p.diffF ++ " " ++ showV d p.diffC ++ " " ++ showV d p.fine ++ " " ++
+    showV d p.coarse
+
 def step (tk : List String) : String :=
   match tk with
+  | ["cfixed", d, dates, iF, iC, wF, wC] =>
+    match parseNat? d, parseRatList? dates, parseListListWith? parseRat? iF, parseListListWith? parseRat? iC,
+          parseListListWith? parseRat? wF, parseListListWith? parseRat? wC with
+    | some d, some dates, some iF, some iC, some wF, some wC =>
+      let n := dates.length - 1
+      showPairV d (fixedDatesCopulaPair dates (rowsV d (padRows n iF)) (rowsV d (padRows n iC)) (colsV wF) (colsV wC))
+    | _, _, _, _, _, _ => "bad-op"
+  | ["cjt", d, dates, us, iF, iC, wF, wC] =>
+    match parseNat? d, parseRatList? dates, parseListListWith? parseRat? us, parseListListWith? parseRat? iF,
+          parseListListWith? parseRat? iC, parseListListWith? parseRat? wF, parseListListWith? parseRat? wC with
+    | some d, some dates, some us, some iF, some iC, some wF, some wC =>
+      let n := dates.length - 1
+      let Is := mkIntervals dates (padRows n us) (padRows n us)
+      showPairV d (jumpTimesCopulaPair (lastD 0 dates) Is (rowsV d (padRows n iF)) (rowsV d (padRows n iC))
+        (colsV wF) (colsV wC))
+    | _, _, _, _, _, _, _ => "bad-op"
+  | ["cmax", d, e, dates, us, iF, iC, wF, wC] =>
+    match parseNat? d, parseRat? e, parseRatList? dates, parseListListWith? parseRat? us,
+          parseListListWith? parseRat? iF, parseListListWith? parseRat? iC, parseListListWith? parseRat? wF,
+          parseListListWith? parseRat? wC with
+    | some d, some e, some dates, some us, some iF, some iC, some wF, some wC =>
+      let n := dates.length - 1
+      let Is := mkIntervals dates (padRows n us) (padRows n us)
+      showPairV d (maxStepCopulaPair e (lastD 0 dates) (jumpTimes Is) (jumpValsCopula (rowsV d (padRows n iF)))
+        (jumpValsCopula (rowsV d (padRows n iC))) (colsV wF) (colsV wC))
+    | _, _, _, _, _, _, _, _ => "bad-op"
+  | ["iff", "fixed", incs] =>
+    match parseListListWith? parseRat? incs with
+    | some incs => if allZeroButLast incs then "1" else "0"
+    | none => "bad-op"
+  | ["iff", "restart", ss] =>
+    match parseListListWith? parseRat? ss with
+    | some ss => if restartFreeB 0 ss then "1" else "0"
+    | none => "bad-op"
   | ["finer", e, T, jt, jv] =>
     match parseRat? e, parseRat? T, parseRatList? jt, parseRatList? jv with
     | some e, some T, some jt, some jv =>
